@@ -54,6 +54,16 @@ CHECKS["C08"] = dict(
          "Restart is simulated in-process by rebuilding all backend objects. The model covers the plain content-addressed value path; null / exception / override / partition / nested scenarios are checked on the implementation only.",
     ref="6/C08")
 
+CHECKS["C09"] = dict(
+    technique="Coq proof (invariant over all schedules, any number of threads and keys: mutual exclusion per call, single flight, progress for flat calls; C06 invariant for any sequence of atomic cache operations) + source facts (look-up inside the mutex, cache methods locked) + real threads under a deterministic scheduler with preemption-bounded systematic exploration",
+    text="Theorems over Runner/Threads.v for every schedule (list of thread ids) of any number of threads calling any keys on a cold or warm store: the body of a key runs at most once at every point, exactly once at the end if it was not memoized, never otherwise; "
+         "two threads are never inside the critical section of one key; unless all are done some thread can move (flat calls). With every public MemoryCache method atomic (source fact: they hold the cache lock) the operations of all threads form one sequence and C06's invariant holds after any sequence. "
+         "Implementation: real threads stopped at every method call on the cache / metadata source / data source, every function call in runner_local.py and every body start (plus every source line inside MemoryCache in line mode), "
+         "schedules explored systematically by increasing number of preemptions and sampled randomly; per-thread values, escaped exceptions, body counts and cache accounting are checked after every schedule.",
+    note="Partial for: CPython's own switch points (the scheduler decides interleavings only at the listed points), nested memento calls / lock ordering along the call tree (progress theorem is for flat calls), and the blocked-thread heuristic "
+         "(a granted thread that does not reach its next point within 30 ms is treated as waiting for a lock).",
+    ref="6/C09")
+
 NOT_YET = {}
 
 
